@@ -3,7 +3,7 @@ import Proofs.Syncer
 # Notification histories as the gossip layer really produces them
 
 `C04_table_spec` assumes `AddrStable`: address keys are never deleted.  **The gossip layer does
-not guarantee that** (finding, `Proofs/SysInv.lean sys_addrStable_counterexample`): an observer that
+not guarantee that** (finding, `Props/C04.lean C04_addrStable_not_guaranteed`): an observer that
 holds an owner's *pre-compaction* address entries and is then brought up to date by a third node's
 relayed view, which still contains the owner's *old* compaction marker, drops the address keys on
 that marker (`OnDeleteKey(a, "proxy_addr")`) and re-learns them from the re-versioned copies a few
